@@ -794,3 +794,14 @@ def _register_shared_round9():
 
 
 # _register_shared_round9() is called by the driver after this module is fully imported (no import cycles)
+
+
+# "a catalog reopened from its cache directory holds the same records": the list of patch ids the writer stores is what the reader finds
+# (sorted, complete) - the C08 unit on CatalogWriter.finalize / read_patch_ids without a crash, run here as well
+def _register_shared_ids():
+    from . import C08 as _C08
+    unit(P, "CatalogWriter.finalize", fuc=["yaw.catalog.catalog:CatalogWriter.finalize", "yaw.catalog.catalog:read_patch_ids"],
+         cases=[dict(K=k, empty=False, fail=False) for k in (1, 2, 3)], kind="bounded")(_C08.u_finalize)
+
+
+# _register_shared_ids() is called by the driver after this module is fully imported (no import cycles)
